@@ -127,3 +127,75 @@ def discharge_killable(assumptions, goal, timeout_s=30):
 def sample_smt2(assumptions, goal, limit=1500):
     txt = _smt2(assumptions, goal)
     return txt if len(txt) <= limit else txt[:limit] + "\n; ... truncated"
+
+
+def _consts(fs):
+    seen, out, todo = set(), {}, list(fs)
+    while todo:
+        t = todo.pop()
+        if t.get_id() in seen:
+            continue
+        seen.add(t.get_id())
+        if z3.is_const(t) and t.decl().kind() == z3.Z3_OP_UNINTERPRETED:
+            out[t.decl().name()] = t
+        todo.extend(t.children())
+    return out
+
+
+def concrete_refute(assumptions, goal_eqs, tries=600, seed=0, rel=1e-6):
+    """Refutation by a concrete witness, for goals the solvers leave open: random values for every free constant (reals of several
+    magnitudes, booleans, small integers); a witness satisfies every assumption under floating-point evaluation of the terms (sqrt, arctan,
+    log, ... taken from libm) and makes the two sides of one goal equation differ by more than `rel` relative. Only ever used to turn
+    `unknown` into `refuted` (never to discharge); returns the witness dict or None. Quantifier-free formulas over the known functions only."""
+    import math
+    import random
+
+    from engine.crosscheck import ev
+
+    rnd = random.Random(seed)
+    try:
+        cs = _consts(list(assumptions) + [x for ab in goal_eqs for x in ab])
+    except Exception:  # pylint: disable=broad-except
+        return None
+    bools = [n for n, c in cs.items() if z3.is_bool(c)]
+    import re
+
+    groups = sorted({re.sub(r"(_\d+)+$", "", n) for n in cs})
+    for k in range(tries):
+        env = {"__tol__": 1e-9}
+        gscale = {g: rnd.choice((1.0, 1.0, 1e-3, 1e3, 1e-6, 1e6)) for g in groups}  # whole arrays far away from / tiny against each other
+        for n, c in cs.items():
+            if z3.is_bool(c):
+                env[n] = rnd.random() < 0.5
+            elif z3.is_int(c):
+                env[n] = rnd.randint(1, 4)
+            else:
+                v = rnd.choice((1.0, 1.0, 1.0, 0.1, 10.0)) * rnd.gauss(0, 1) if rnd.random() > 0.05 else rnd.choice((0.0, 1.0, -1.0))
+                env[n] = v * gscale[re.sub(r"(_\d+)+$", "", n)]
+        try:
+            cache = {}
+            if not all(ev(a, env, cache) for a in assumptions):
+                # try to repair the boolean (batch-global) symbols only
+                ok = False
+                for bits in range(1 << min(len(bools), 8)):
+                    for bi, n in enumerate(bools[:8]):
+                        env[n] = bool(bits >> bi & 1)
+                    cache = {}
+                    if all(ev(a, env, cache) for a in assumptions):
+                        ok = True
+                        break
+                if not ok:
+                    continue
+            for a, b in goal_eqs:
+                va, vb = ev(a, env, cache), ev(b, env, cache)
+                if isinstance(va, bool) or isinstance(vb, bool):
+                    if bool(va) != bool(vb):
+                        return env
+                    continue
+                if math.isnan(va) or math.isnan(vb) or math.isinf(va) or math.isinf(vb):
+                    break
+                if abs(va - vb) > rel * (abs(va) + abs(vb) + 1e-300):
+                    return env
+        except (NotImplementedError, KeyError, ZeroDivisionError, OverflowError, ValueError):
+            return None
+    return None
